@@ -28,8 +28,9 @@ ASSUMPTIONS = [
 ]
 REQUIRED = {"xml.well_formed": {"quick": 600, "thorough": 30000}, "testcases.match_scenarios": {"quick": 600, "thorough": 30000},
             "counters.match_entries": {"quick": 600, "thorough": 30000}, "problem.entry_names_step_or_hook": {"quick": 300, "thorough": 15000},
-            "reporter.never_raises": {"quick": 600, "thorough": 30000}}
-REQUIRED_SEEN = {"testcase_status": ["passed", "failed", "error", "hook_error", "skipped", "untested"],
+            "reporter.never_raises": {"quick": 600, "thorough": 30000},
+            "testcases.scenario_whose_cleanup_raised_is_not_reported_passed": {"quick": 30, "thorough": 1500}}
+REQUIRED_SEEN = {"feature_file_name_class": ["dotted"], "testcase_status": ["passed", "failed", "error", "hook_error", "skipped", "untested"],
                  "hostile_class_in_report": ["xml_meta", "cdata_end", "c0", "c1", "ansi", "astral", "non_ascii", "format_meta"]}
 NSHARDS = {"quick": 16, "thorough": 16}
 
@@ -175,6 +176,7 @@ def run_case(lab, mon, case, rng, messages, noisy, sample=False):
             sys.stderr.write(err + "\n")
             logging.getLogger("bvm.hostile").warning("%s", log)
     kw = {}
+    cleanup_victim = []     # (feature name, scenario name) of the scenario whose own cleanup the harness makes raise
     if case.get("hook_fault"):
         kw["hook_fault"] = case["hook_fault"]
     if case.get("cleanup_plan"):
@@ -183,6 +185,8 @@ def run_case(lab, mon, case, rng, messages, noisy, sample=False):
         def plug(state, context, name, elem, tag):
             if name == target and not state.faults_fired:
                 state.faults_fired.append(("cleanup", name))
+                if name in ("before_scenario", "after_scenario"):
+                    cleanup_victim.append((context.feature.name, elem.name))
 
                 def bad_cleanup():
                     raise RuntimeError("cleanup " + hostile.text(random.Random(1), 2))
@@ -232,7 +236,8 @@ def run_case(lab, mon, case, rng, messages, noisy, sample=False):
             by_feature[os.path.basename(path)] = root
         # which model feature belongs to which file: f<i>.feature -> TESTS-f<i>.xml
         for f in obs.features:
-            fname = "TESTS-%s.xml" % os.path.splitext(os.path.basename(f.filename))[0]
+            # documented naming: the feature's path below the base directory without its extension, '/' -> '.'
+            fname = "TESTS-%s.xml" % os.path.splitext(f.filename)[0].replace("\\", "/").replace("/", ".")
             root = by_feature.get(fname)
             fstatus = f.status.name
             expected_file = not (fstatus == "skipped" and not show_skipped)
@@ -267,6 +272,19 @@ def run_case(lab, mon, case, rng, messages, noisy, sample=False):
                 if len(reported) == 1:
                     mon.check("testcases.executed_scenario_reported_as_executed", reported[0] not in ("untested", "skipped"),
                               lambda: W(feature=f.name, scenario=sn, status_when_it_ran=st_run, reported=reported[0]))
+            for (fn, sn) in cleanup_victim:
+                if fn != f.name:
+                    continue
+                hit = [c for c in cases if norm((c["attrs"].get("name"), None)) == norm((sn, None))]
+                if len(hit) == 1 and (fn, sn) in executed:
+                    # the harness made a cleanup of this scenario raise: the scenario ended in an error-class status and its
+                    # test case says so (status and <error> entry), whatever its steps did
+                    c = hit[0]
+                    st_c = c["attrs"].get("status")
+                    has_problem = any(x["tag"] in ("error", "failure") for x in c["children"])
+                    mon.check("testcases.scenario_whose_cleanup_raised_is_not_reported_passed",
+                              st_c not in ("passed", "skipped", "untested") and has_problem,
+                              lambda: W(feature=f.name, scenario=sn, reported_status=st_c, entries=[x["tag"] for x in c["children"]]))
             for g in got:
                 mon.seen("testcase_status", g[1])
             A = root["attrs"]
@@ -344,6 +362,14 @@ def run(spec, mon):
                 messages[text] = "msg " + hostile.text(rng)
             if rng.random() < 0.4:
                 noisy[text] = (hostile.text(rng, sep=" "), hostile.text(rng, sep=" "), hostile.text(rng, sep=" "))
+        if i % 5 == 1 and len(case["program"]["features"]) >= 2:
+            # feature files with dots in their names / below dotted directories: every feature still gets its own document
+            names = rng.choice([["checkout.cart.feature", "checkout.payment.feature"], ["api.v2/f0.feature", "api.v2/f1.feature"],
+                                ["a.b.c.feature", "a.feature"], ["v1.2/x.y.feature", "v1.2/x.z.feature"]])
+            for f, nm in zip(case["program"]["features"], names):
+                f["file"] = nm
+                f.pop("_text", None)
+            mon.seen("feature_file_name_class", "dotted")
         mode = i % 4
         if mode == 1 and not case["cfg"]["dry_run"]:
             obs0 = lab.run(case["program"], args=case["args"])
